@@ -87,6 +87,16 @@ def r18_1(ctx: Ctx):
     flag_reads = [x for x in body_walk(f.node) if isinstance(x, ast.Attribute) and x.attr == "_hibernating" and isinstance(x.ctx, ast.Load)]
     if flag_reads and not any(_mentions_flag(n.ast) for n in cfg.nodes if n.kind == "cond" and n.ast is not None):
         return [ctx.ob("R18.1", f, flag_reads[0], status=INCONCLUSIVE, detail="the hibernation flags are read into a selection (mask / index set) computed outside the stepping loop's tests: which demes it leaves out is not followed", construct="preselection")]
+    # ... or tested in ANOTHER loop that builds the list the stepping loop then walks (`for d in ..: if skip and d._hibernating:
+    # continue; selected.append(d)`): a pre-selection as well
+    step_bodies = set()
+    for n in step_nodes:
+        L = cfg.loop_of(n)
+        if L is not None:
+            step_bodies |= set(L["body_ids"])
+    flag_conds = [n for n in cfg.nodes if n.kind == "cond" and n.ast is not None and _mentions_flag(n.ast)]
+    if flag_conds and step_bodies and not any(n.id in step_bodies for n in flag_conds):
+        return [ctx.ob("R18.1", f, flag_conds[0].stmt, status=INCONCLUSIVE, detail="the hibernation flag is tested while the list of demes to step is built, not in the stepping loop: which demes that list leaves out is not followed", construct="preselection-loop")]
     from .common import opaque_deme_calls
 
     oc = opaque_deme_calls(ctx, f, f.node, "_hibernating")
